@@ -10,9 +10,11 @@ UNIT = {
         {'file': 'riscv_analysis/src/cfg/ops.rs', 'item': 'enum MathOp', 'attrs': 'drop'},
         {'file': 'riscv_analysis/src/cfg/ops.rs', 'item': 'impl MathOp :: fn operate', 'wrap': 'impl MathOp',
          'fn': 'operate', 'ret': 'r', 'attrs': 'keep',
-         'ensures': [('post.value', 'rv32_defined(*self) ==> r as int == rv32_int(*self, x as int, y as int)')],
+         # one clause per operator: the single clause over all eight was unstable under other SMT seeds
+         'ensures': [('post.%s' % o.lower(), '*self is %s ==> r as int == rv32_int(*self, x as int, y as int)' % o)
+                     for o in ['Add', 'Sub', 'Slt', 'Sltu', 'Div', 'Divu', 'Rem', 'Remu']],
          'body_start': ['proof {',
-                        '    lemma_casts(); axiom_from_std();',
+                        '    lemma_casts(); axiom_from_std(); lemma_div_rem_minus_one(x as int);',
                         '    lemma_mul_bounds(x as int, y as int);',
                         '    lemma_mul_bounds(x as int, to_u32(y as int));',
                         '    lemma_umul_bounds(to_u32(x as int), to_u32(y as int));',
@@ -21,11 +23,13 @@ UNIT = {
     ],
     'functions': [{'file': 'riscv_analysis/src/cfg/ops.rs', 'item': 'impl MathOp :: fn operate'}],
     'obligations': [
-        {'id': 'ops_v.operate.post.value', 'fn': 'operate', 'label': 'post.value',
+    ] + [
+        {'id': 'ops_v.operate.post.%s' % o, 'fn': 'operate', 'label': 'post.%s' % o,
          'props': ['C08', 'C01'], 'kind': 'proof',
-         'clause': 'operate(op, x, y) == rv32_int(op, x, y) over mathematical integers for op in '
-                   '{add, sub, slt, sltu, div, divu, rem, remu} (the only discharge of the rem/remu value clause)',
-         'search': ['ops-search']},
+         'clause': 'operate(%s, x, y) == rv32_int(%s, x, y) over mathematical integers%s' % (o, o, ' (the only discharge of the exact value)' if o in ('rem', 'remu') else ''),
+         'search': ['ops-search']}
+        for o in ['add', 'sub', 'slt', 'sltu', 'div', 'divu', 'rem', 'remu']
+    ] + [
         {'id': 'ops_v.operate.safe', 'fn': 'operate', 'label': 'safe',
          'props': ['C08', 'C06'], 'kind': 'proof',
          'clause': 'no arithmetic overflow, no division by zero, callee preconditions hold in every arm of operate',
